@@ -946,6 +946,7 @@ func TestVerifC12Replicas(t *testing.T) {
 				k.LabelIf(out.nudges > 0, "settle needed a leadership nudge (follower stuck behind)")
 				k.LabelIf(out.unresolved > 0, "some futures never resolved")
 				k.LabelIf(len(facts.KnownClass) > 0, "KNOWN FINDING hit: ack by a node that did not lead the entry's term")
+				k.LabelIf(j.i < 0, "corpus script")
 				k.LabelIf(j.cfg.Pebble, "pebble raftlog")
 				k.LabelIf(j.cfg.Pebble && j.cfg.SMKind != 2 && facts.Restarts > 0, "pebble raftlog restarted under a state machine that relies on MarkApplied")
 				k.LabelIf(out.staleSteps > 0, "stale-leader step ran")
